@@ -41,6 +41,30 @@ def strip_doc(body: list[ast.stmt]) -> list[ast.stmt]:
     return body
 
 
+def canon_if(s: ast.stmt) -> ast.stmt:
+    """`if c: T = a` / `else: T = b` (one target, the same in both branches) is the assignment `T = a if c else b`:
+    both spellings are translated alike."""
+    if isinstance(s, ast.If) and len(s.body) == 1 and len(s.orelse) == 1:
+        a, b = s.body[0], s.orelse[0]
+        if (isinstance(a, ast.Assign) and isinstance(b, ast.Assign) and len(a.targets) == 1 and len(b.targets) == 1
+                and ast.unparse(a.targets[0]) == ast.unparse(b.targets[0])):
+            n = ast.Assign(targets=[a.targets[0]], value=ast.IfExp(test=s.test, body=a.value, orelse=b.value), lineno=s.lineno, col_offset=s.col_offset)
+            return ast.fix_missing_locations(n)
+    return s
+
+
+def canon_body(body: list[ast.stmt]) -> list[ast.stmt]:
+    return [canon_if(x) for x in strip_doc(body)]
+
+
+def str_test_param(n: ast.expr) -> str | None:
+    """`isinstance(p, str)` -> p"""
+    if (isinstance(n, ast.Call) and isinstance(n.func, ast.Name) and n.func.id == "isinstance" and len(n.args) == 2 and not n.keywords
+            and isinstance(n.args[0], ast.Name) and isinstance(n.args[1], ast.Name) and n.args[1].id == "str"):
+        return n.args[0].id
+    return None
+
+
 def norm_src(fn: ast.FunctionDef) -> str:
     """Normalised source of a function: docstring and decorators removed, `ast.unparse` layout."""
     n = ast.FunctionDef(name=fn.name, args=fn.args, body=strip_doc(fn.body) or [ast.Pass()], decorator_list=[], returns=None, lineno=0, col_offset=0)
@@ -423,6 +447,11 @@ class InitTranslator:
                 return f"(IOrNew {self.pname(p, env, where)} {q(alt.func.id)})"
             if ast.unparse(alt) == "IntegralDefuzzifier.default_resolution":
                 return f"(IOrDefaultResolution {self.pname(p, env, where)})"
+        # Cls[p] if isinstance(p, str) else p   /   Cls(p) if isinstance(p, str) else p   (enumeration given by name / by value)
+        if isinstance(n, ast.IfExp) and str_test_param(n.test) is not None and isinstance(n.orelse, ast.Name) and n.orelse.id == str_test_param(n.test):
+            conv = self.enum_conv(n.body, str_test_param(n.test), env, where)
+            if conv is not None:
+                return conv
         # variables.copy() if variables else {}
         if isinstance(n, ast.IfExp) and isinstance(n.test, ast.Name) and ast.unparse(n.body) == f"{n.test.id}.copy()" and ast.unparse(n.orelse) == "{}":
             self.need_param(n.test.id, env, where)
@@ -436,6 +465,20 @@ class InitTranslator:
                 kws.append(f"({q(k.arg)}, {self.value(k.value, env, where)})")
             return f"(INew {q(n.func.id)} {clist(kws)})"
         raise TranslationError(where, f"unsupported value in __init__: {u}")
+
+    def enum_conv(self, n: ast.expr, p: str, env: dict[str, str], where: str) -> str | None:
+        """`Cls[p]` -> IEnumByName, `Cls(p)` -> IEnumByValue, for a translated enumeration Cls and the plain parameter p."""
+        if isinstance(n, ast.Subscript) and isinstance(n.slice, ast.Name) and n.slice.id == p:
+            kind, cls = "IEnumByName", ast.unparse(n.value)
+        elif isinstance(n, ast.Call) and len(n.args) == 1 and not n.keywords and isinstance(n.args[0], ast.Name) and n.args[0].id == p:
+            kind, cls = "IEnumByValue", ast.unparse(n.func)
+        else:
+            return None
+        cands = [qn for qn, c in self.w.classes.items() if self.w.is_enum(c) and (qn == cls or qn.endswith("." + cls))]
+        if len(cands) != 1:
+            return None
+        self.need_param(p, env, where)
+        return f"({kind} {q(cands[0])} {self.pname(p, env, where)})"
 
     def need_param(self, p: str, env: dict[str, str], where: str):
         if p not in env or not env[p].startswith("(IParam "):
@@ -451,7 +494,7 @@ class InitTranslator:
             return [f"SSet {q(field)} {rhs}"]
         if "set" not in prop:
             raise TranslationError(where, f"assignment to read-only property `{field}`")
-        body = ast.unparse(ast.Module(body=strip_doc(prop["set"].body), type_ignores=[]))
+        body = ast.unparse(ast.Module(body=canon_body(prop["set"].body), type_ignores=[]))
         if body == f"self.fuzzy.{field} = value":
             return [f"SSetSub \"fuzzy\" {q(field)} {rhs}"]
         if body == "self._degree = np.nan_to_num(value, nan=0.0, neginf=0.0, posinf=1.0)":
@@ -492,7 +535,7 @@ class InitTranslator:
         if self.depth > 6:
             raise TranslationError(where, "super() chain too deep")
         out: list[str] = []
-        body = strip_doc(fn.body)
+        body = canon_body(fn.body)
         i = 0
         while i < len(body):
             s = body[i]
@@ -535,16 +578,21 @@ class InitTranslator:
                 self.need_param("values", env, where)
                 out.append(f'SSet "values" (IDiscreteValues {self.pname("values", env, where)})')
                 continue
-            # ---- WeightedDefuzzifier: if isinstance(type, str): self.type = WeightedDefuzzifier.Type[type] else: self.type = type
-            if isinstance(s, ast.If) and u == "if isinstance(type, str):\n    self.type = WeightedDefuzzifier.Type[type]\nelse:\n    self.type = type":
-                self.need_param("type", env, where)
-                out.append(f'SSet "type" (IEnumByName "WeightedDefuzzifier.Type" {self.pname("type", env, where)})')
-                continue
-            # ---- Threshold: if isinstance(comparator, str): comparator = Threshold.Comparator(comparator)
-            if isinstance(s, ast.If) and u == "if isinstance(comparator, str):\n    comparator = Threshold.Comparator(comparator)":
-                self.need_param("comparator", env, where)
+            # ---- p = Cls(p) if isinstance(p, str) else p   /   if isinstance(p, str): p = Cls(p)     (rebinding of a parameter;
+            #      the if/else statement assigning an attribute was turned into `self.f = … if … else …` by canon_body)
+            rebind = None
+            if isinstance(s, ast.If) and not s.orelse and len(s.body) == 1 and str_test_param(s.test) is not None:
+                a = s.body[0]
+                if isinstance(a, ast.Assign) and len(a.targets) == 1 and isinstance(a.targets[0], ast.Name) and a.targets[0].id == str_test_param(s.test):
+                    rebind = (a.targets[0].id, self.enum_conv(a.value, a.targets[0].id, env, where))
+            elif (isinstance(s, ast.Assign) and len(s.targets) == 1 and isinstance(s.targets[0], ast.Name) and isinstance(s.value, ast.IfExp)
+                  and str_test_param(s.value.test) == s.targets[0].id and isinstance(s.value.orelse, ast.Name) and s.value.orelse.id == s.targets[0].id):
+                rebind = (s.targets[0].id, self.enum_conv(s.value.body, s.targets[0].id, env, where))
+            if rebind is not None:
+                if rebind[1] is None:
+                    raise TranslationError(where, f"unsupported conversion of parameter `{rebind[0]}`: {u[:100]}")
                 env = dict(env)
-                env["comparator"] = f'(IEnumByValue "Threshold.Comparator" {self.pname("comparator", env, where)})'
+                env[rebind[0]] = rebind[1]
                 continue
             # ---- if load: self.load()   (Function)  /  if load: <reference + rule loading loop>  (Engine)
             if isinstance(s, ast.If) and isinstance(s.test, ast.Name) and s.test.id in env and not s.orelse:
